@@ -502,10 +502,11 @@ MANIFEST = {
 }
 
 MONTHS = ['Jan', 'Feb', 'Mar', 'Apr', 'May', 'Jun', 'Jul', 'Aug', 'Sep', 'Oct', 'Nov', 'Dec']
-INT_KEYS = ['Atoms', 'Elapsed', 'Elaplong', 'Bonds', 'Angles', 'v_count', 'c_nn', 'Nbuild', 'Ndanger']
+INT_KEYS = ['Atoms', 'Elapsed', 'Elaplong', 'Bonds', 'Angles', 'v_count', 'c_nn', 'Nbuild', 'Ndanger', 'v_nStep']
 FLOAT_KEYS = ['Temp', 'Press', 'PotEng', 'KinEng', 'TotEng', 'E_pair', 'E_mol', 'E_vdwl', 'E_coul', 'Volume',
               'Lx', 'Ly', 'Lz', 'Xy', 'Pxx', 'Pyy', 'Pzz', 'Pxy', 'c_pe', 'c_msd[4]', 'v_strain', 'f_ave[1]',
-              'CPU', 'Density', 'Enthalpy', 'Fmax', 'Fnorm', 'v_Loop', 'Time', 'Dt']
+              'CPU', 'Density', 'Enthalpy', 'Fmax', 'Fnorm', 'v_Loop', 'Time', 'Dt', 'f_ave[2][3]', 'c_pe[1]',
+              'v_myvar', 'v_Step', 'c_Steps[2]', 'T/CPU', 'S/CPU', 'CPULeft']
 PREAMBLE = ['units metal', 'atom_style atomic', 'boundary p p p', 'read_data init.dat',
             '  orthogonal box = (0 0 0) to (4.05 4.05 4.05)', '  1 by 1 by 1 MPI processor grid', '  4 atoms',
             'pair_style eam/alloy', 'pair_coeff * * Al.eam.alloy Al', 'mass 1 26.98', 'thermo 10',
@@ -571,7 +572,12 @@ def _float_token(rng: random.Random) -> str:
         return repr(rng.uniform(-1e3, 1e3))
     if k == 10:
         return '%.15g' % (rng.uniform(-1, 1) * 10 ** rng.randint(-20, 20))
-    return rng.choice(['nan', '-nan', 'inf', '-inf', '1e-300', '1.7976931348623157e+308', '-0', '0.0', '-0.0'])
+    if k == 11 and rng.random() < 0.12:
+        # not a number in C's locale (a decimal comma, a thousands separator): LAMMPS never prints these; a reader must
+        # not silently turn them into numbers (the cell is text)
+        return rng.choice(['1,5', '12,75', '1,234.5', '0,0', '3,000'])
+    return rng.choice(['nan', '-nan', 'inf', '-inf', '1e-300', '1.7976931348623157e+308', '-0', '0.0', '-0.0',
+                       '.5', '-.5', '5.', '1E+05', '1e308', 'NaN', '2.5E-3', '-1e-320'])
 
 
 def _pad(rng, style, tok, first):
@@ -600,7 +606,7 @@ def render_cells(rng, style, toks):
 class RunSpec:
     """one run: keywords, typed columns, rows of printed tokens, layout options."""
     __slots__ = ('banner', 'cols', 'kinds', 'rows', 'complete', 'style', 'breakdown', 'hist', 'minimize',
-                 'inside', 'gap', 'blank_in_body')
+                 'inside', 'gap', 'blank_in_body', 'perf')
 
     def steps(self):
         if 'Step' not in self.cols:
@@ -633,6 +639,11 @@ def gen_run(rng, start, size, allow_dirty, era, keys=None, force=None):
             k = rng.choice(pool)
             if k not in keys:
                 keys.insert(rng.randint(1, len(keys)), k)
+    elif rng.random() < 0.03:
+        # very many columns (a long `thermo_style custom` list with per-component computes / variables)
+        ncols = rng.randint(40, 130)
+        keys = ['Step'] + [('v_n%d' % j) if j % 7 == 3 else rng.choice(['c_s[%d]', 'f_w[%d]', 'v_q%d', 'c_p[%d][2]']) % j
+                           for j in range(1, ncols)]
     else:
         ncols = rng.randint(1, 9)
         keys = []
@@ -647,7 +658,7 @@ def gen_run(rng, start, size, allow_dirty, era, keys=None, force=None):
             keys[rng.randrange(len(keys))] = 'Step'
     ncols = len(keys)
     r.cols = keys
-    r.kinds = ['int' if (k in INT_KEYS or k == 'Step') else 'float' for k in keys]
+    r.kinds = ['int' if (k in INT_KEYS or k == 'Step' or k.startswith('v_n')) else 'float' for k in keys]
     n = rng.choice([0, 1, 1, 2, 2, 3, 4, 5, 6, 8, 11])
     if size == 'big':
         n = rng.randint(20, 80)
@@ -678,6 +689,7 @@ def gen_run(rng, start, size, allow_dirty, era, keys=None, force=None):
     r.gap = rng.choice([0, 0, 0, 1, 2])
     r.blank_in_body = rng.random() < 0.15
     r.inside = []
+    r.perf = None
     if allow_dirty and n > 0 and rng.random() < 0.5:
         pos, w = rng.randint(0, n), rng.choice(INSIDE_WARN)
         # a first data line wider than the header makes pandas invent index columns (not modelled): keep
@@ -688,11 +700,16 @@ def gen_run(rng, start, size, allow_dirty, era, keys=None, force=None):
     return r, dt
 
 
-def breakdown_lines(rng, kind):
+def breakdown_lines(rng, kind, spec=None):
+    """the printed timing breakdown; `spec` (a list) receives what the record of the run is expected to carry:
+    (column names, rows [section name, tokens…])."""
+    spec = [] if spec is None else spec
     if kind == 'new':
         full = rng.random() < 0.3
         hdr = 'Section |  min time  |  avg time  |  max time  |%varavg|' + ('  %CPU | %total' if full else ' %total')
         L = ['MPI task timing breakdown:', hdr, '-' * len(hdr)]
+        rows = []
+        spec.append((['min time', 'avg time', 'max time', '%varavg'] + (['%CPU'] if full else []) + ['%total'], rows))
         for name in ['Pair', 'Bond', 'Neigh', 'Comm', 'Output', 'Modify'][:rng.randint(1, 6)] + ['Other']:
             t = '%.5g' % rng.uniform(0, 2)
             if name == 'Other':
@@ -703,11 +720,16 @@ def breakdown_lines(rng, kind):
                 cells.append('' if name == 'Other' else '%.1f' % rng.uniform(50, 100))
             cells.append('%.2f' % rng.uniform(0, 100))
             L.append('%-7s ' % name + '|' + '|'.join(' %-10s ' % c for c in cells[:-1]) + '| ' + cells[-1].rjust(5))
+            rows.append([name] + [c if c != '' else '0.0' for c in cells])     # an empty field of the table is 0.0
         return L
     if kind == 'old':
         L = []
+        rows = []
+        spec.append((['avg. Time', '%'], rows))
         for name in ['Pair ', 'Bond ', 'Neigh', 'Comm ', 'Outpt', 'Other']:
-            L.append('%s time (%%) = %.6g (%.4g)' % (name, rng.uniform(0, 3), rng.uniform(0, 100)))
+            t, pc = '%.6g' % rng.uniform(0, 3), '%.4g' % rng.uniform(0, 100)
+            L.append('%s time (%%) = %s (%s)' % (name, t, pc))
+            rows.append([('%s time (%%)' % name).strip(), t, pc])
         return L
     return []
 
@@ -772,7 +794,9 @@ def render_run(rng, r: RunSpec):
         L += _noise(rng, BLANKS, 0, 1)
         if r.minimize:
             L += POST_MIN + _noise(rng, BLANKS, 0, 1)
-        L += breakdown_lines(rng, r.breakdown)
+        spec = []
+        L += breakdown_lines(rng, r.breakdown, spec)
+        r.perf = spec[0] if spec else None
         L += _noise(rng, BLANKS, 0, 1)
         if r.breakdown != 'none-nohist':
             L.append('Nlocal:    4 ave 4 max 4 min')
@@ -797,7 +821,12 @@ def gen_log(rng, nruns=None, size='small', allow_dirty=False, allow_backward=Tru
     if S.version is not None:
         L.append(f'LAMMPS ({S.version_string})' + rng.choice(['', '', ' ']))
     L += _noise(rng, PREAMBLE + BLANKS, 0, 8)
-    start = rng.choice([0, 0, 0, 100, 5000, 1000000])
+    if rng.random() < 0.03:
+        # an extremely long line (a long echoed variable / a `print` of a whole table)
+        L.insert(rng.randint(0, len(L)), rng.choice([
+            'variable big string "' + 'x' * rng.randint(5000, 20000) + '"',
+            'print "' + ' '.join(str(j) for j in range(rng.randint(1000, 4000))) + '"']))
+    start = rng.choice([0, 0, 0, 100, 5000, 1000000] * 3 + [2 ** 53 - 3, 2 ** 62])   # LAMMPS bigint steps: up to 2^63-1
     prev = None
     # one LAMMPS version per file: old banner + old timing lines, old banner + MPI breakdown, or new + new
     era = rng.choice([('old', 'old'), ('old', 'new'), ('new', 'new'), ('new', 'new')])
@@ -967,7 +996,9 @@ def table_equal(impl, model):
 INDEX_COL = '<row labels are not 0..n-1:>'
 
 
-def impl_table(df):
+def impl_table(df, record=True):
+    """`record`: a table as read from one block (a flattened table may legitimately hold a column as text: one of the
+    merged runs had a junk token there, and its row may have been superseded)."""
     if df is None:                      # a record without a thermo table
         return (['<the record has no thermo table>'], [])
     cols = [str(c) for c in df.columns]
@@ -975,7 +1006,7 @@ def impl_table(df):
     rows = [[canon_value(v) for v in row] for row in vals]
     # printed numbers are read as numbers: a column whose cells are all numeric tokens / empty but held as text is
     # shown as text (pandas legitimately keeps a column as text only when a junk line put a non-numeric token into it)
-    for k in range(len(cols)):
+    for k in range(len(cols) if record else 0):
         cells = [row[k] for row in vals]
         if any(isinstance(v, str) for v in cells) and \
                 all(not isinstance(canon_token(v), tuple) for v in cells if isinstance(v, str) and v != ''):
@@ -1146,14 +1177,30 @@ def expect_of(S: LogSpec) -> dict:
     """what the property says a read of this log must give (from the spec, not from any parser)."""
     v = S.version
     return {'version': S.version_string, 'date': None if v is None else [v[2], v[1], v[0]],
-            'runs': [{'cols': list(r.cols), 'rows': [list(x) for x in r.rows], 'complete': r.complete}
+            'runs': [{'cols': list(r.cols), 'rows': [list(x) for x in r.rows], 'complete': r.complete,
+                      'perf': None if not (r.complete and r.perf) else [list(r.perf[0]), [list(x) for x in r.perf[1]]]}
                      for r in S.runs],
             'dirty': S.dirty}
 
 
 STREAM_MODES = ('stream', 'fstream')            # binary streams: passed through by uber_open_rmode, outlive the call
 TEXT_STREAM_MODES = ('tstream', 'tfstream')     # text-mode streams: refused by uber_open_rmode (ValueError)
-INPUT_MODES = ['text', 'text', 'path', 'stream', 'stream', 'fstream', 'bytes', 'pathobj']
+INPUT_MODES = ['text', 'text', 'path', 'stream', 'stream', 'fstream', 'bytes', 'pathobj', 'samepath']
+# 'samepath': ONE file name per history, overwritten with the log to be read each time (LAMMPS rewrites log.lammps)
+APPEND_VALUES = [None, None, True, True, False, None, None, True, True, False, 0, 1, 'npT', 'npF']
+
+
+def _appends(a) -> bool:
+    """does `read(x, append=a)` append?  None = not given (default True); 0 / 1 / numpy bools ('npF', 'npT') are the
+    falsy / truthy non-`bool` values a caller may compute the flag with."""
+    if isinstance(a, str):
+        return a == 'npT'
+    return a is None or bool(a)
+
+
+def _append_arg(a):
+    import numpy as np
+    return {'npT': np.True_, 'npF': np.False_}.get(a, a) if isinstance(a, str) else a
 
 
 def _position(rng, text):
@@ -1178,10 +1225,10 @@ def _position(rng, text):
 def _read_op(rng, k, mode, first, reuse=False, pre=None):
     """one `Log(x)` / `read(x, append=…)` op.  `reuse`: x is the one object of this history for (log k, mode) — created
     at its first use, then handed over again as the previous reads left it; `pre`: the caller first moves the stream
-    to that character index."""
+    to that character index; last element: arguments given by keyword ('kw') or by position ('pos')."""
     if first and rng.random() < 0.5:
-        return ['ctor', k, mode, reuse, pre]
-    return ['read', k, rng.choice([None, None, True, True, False]), mode, reuse, pre]
+        return ['ctor', k, mode, reuse, pre, rng.choice(['pos', 'pos', 'kw'])]
+    return ['read', k, rng.choice(APPEND_VALUES), mode, reuse, pre, rng.choice(['kw', 'kw', 'pos'])]
 
 
 def gen_history(rng, allow_dirty, size='small', allow_backward=True):
@@ -1196,8 +1243,11 @@ def gen_history(rng, allow_dirty, size='small', allow_backward=True):
     def flattens(lo):
         for _ in range(rng.choice(lo)):
             a = rng.choice([None] * 8 + [0, 1, 2, -1, -2, 7])
-            b = rng.choice([None] * 8 + [1, 2, 3, -1, 9])
-            ops.append(['flatten', rng.choice(['first'] * 5 + ['last'] * 6 + ['all'] * 4 + ['bogus']), a, b])
+            b = rng.choice([None] * 8 + [1, 2, 3, -1, 9, 0])
+            # style None: not given (documented default 'last'); arguments by position, by keyword, or by keyword with
+            # those that are None left out
+            ops.append(['flatten', rng.choice(['first'] * 5 + ['last'] * 5 + ['all'] * 4 + ['bogus', None, None]), a, b,
+                        rng.choice(['pos', 'kw', 'min'])])
 
     for k in range(nlogs):
         mode = rng.choice(INPUT_MODES)
@@ -1212,9 +1262,10 @@ def gen_history(rng, allow_dirty, size='small', allow_backward=True):
             for _ in range(rng.choice([1, 1, 2, 3])):
                 pre = _position(rng, text) if rng.random() < 0.4 else None
                 if rng.random() < 0.25:
-                    ops.append(['ctor', k, mode, True, pre])        # a second Log object on the same stream
+                    ops.append(['ctor', k, mode, True, pre, 'pos'])        # a second Log object on the same stream
                 else:
-                    ops.append(['read', k, rng.choice([None, True, True, True, False]), mode, True, pre])
+                    ops.append(['read', k, rng.choice([None, True, True, True, False, 1, 'npT', 0]), mode, True, pre,
+                                rng.choice(['kw', 'pos'])])
                 flattens([0, 0, 1])
         elif mode in STREAM_MODES and q < 0.7:
             # a fresh stream the caller has already read from
@@ -1226,12 +1277,12 @@ def gen_history(rng, allow_dirty, size='small', allow_backward=True):
     if rng.random() < 0.3:      # re-read an earlier log
         k = rng.randrange(nlogs)
         mode = rng.choice(['text', 'text', 'stream', 'fstream', 'path', 'bytes'])
-        ops.append(['read', k, rng.choice([None, True, False]), mode, mode != 'text' and rng.random() < 0.7,
-                    _position(rng, logs[k]['text']) if mode in STREAM_MODES and rng.random() < 0.3 else None])
-        ops.append(['flatten', rng.choice(['first', 'last', 'all']), None, None])
+        ops.append(['read', k, rng.choice([None, True, False, 'npF']), mode, mode != 'text' and rng.random() < 0.7,
+                    _position(rng, logs[k]['text']) if mode in STREAM_MODES and rng.random() < 0.3 else None, 'kw'])
+        ops.append(['flatten', rng.choice(['first', 'last', 'all']), None, None, 'min'])
     if rng.random() < 0.5:      # the usual end of a session: everything that was read, as one table
-        for style in rng.sample(['last', 'first', 'all'], rng.choice([1, 2, 3])):
-            ops.append(['flatten', style, None, None])
+        for style in rng.sample(['last', 'first', 'all', None], rng.choice([1, 2, 3])):
+            ops.append(['flatten', style, None, None, rng.choice(['pos', 'min'])])
     if rng.random() < 0.04:     # a stream opened in text mode: the documented refusal (ends the history)
         ops.append(['read', rng.randrange(nlogs), rng.choice([None, True, False]), rng.choice(TEXT_STREAM_MODES),
                     False, None])
@@ -1246,6 +1297,21 @@ def op_input(op):
         return op[1], None, op[2], bool(rest[0]), rest[1]
     rest = list(op[4:]) + [False, None]
     return op[1], op[2], op[3], bool(rest[0]), rest[1]
+
+
+def op_form(op):
+    """how the arguments of the call are given: 'pos' / 'kw' (/ 'min' for flatten: by keyword, None ones left out);
+    old replays: the forms used then."""
+    if op[0] == 'ctor':
+        return op[5] if len(op) > 5 else 'pos'
+    if op[0] == 'read':
+        return op[6] if len(op) > 6 else 'kw'
+    return op[4] if len(op) > 4 else 'pos'
+
+
+def flatten_style(op):
+    """the style a flatten op asks for (None = not given = the documented default)."""
+    return 'last' if op[1] is None else op[1]
 
 
 def _byte_pos(text, p):
@@ -1271,9 +1337,10 @@ class _Files:
         self.n = 0
         self.open = []
 
-    def path(self, text):
+    def path(self, text, same=False):
         self.n += 1
-        p = os.path.join(self.dir, f'log-{self.n}.lammps')
+        # (a blank and a non-ASCII letter in the name: a path is not parsed, only opened)
+        p = os.path.join(self.dir, 'log.lammps' if same else f'log-{self.n} é.lammps')
         with open(p, 'wb') as f:
             f.write(text.encode('utf-8'))
         return p
@@ -1295,6 +1362,8 @@ def _input(files, text, mode):
         return text.encode('utf-8')
     if mode == 'path':
         return files.path(text)
+    if mode == 'samepath':
+        return files.path(text, same=True)
     if mode == 'pathobj':
         import pathlib
         return pathlib.Path(files.path(text))
@@ -1309,21 +1378,59 @@ def _input(files, text, mode):
     raise ValueError(mode)
 
 
+EMPTY_STATE = {'version': None, 'date': None, 'sims': []}
+
+
+def _scribble(df):
+    """what a caller may do with a table he was handed: overwrite it in place, add a column, drop rows."""
+    if df is None:
+        return
+    try:
+        for c in list(df.columns):
+            df[c] = -987654321
+        df['<scribbled>'] = 1
+        df.drop(df.index[::2], inplace=True)
+        df.rename(columns={c: 'x' + str(c) for c in df.columns}, inplace=True)
+    except Exception:  # noqa
+        pass
+
+
+def _stream_bytes(src, mode, path):
+    """content of a caller-owned stream without moving it."""
+    if mode == 'stream':
+        return src.getvalue()
+    with open(path, 'rb') as f:
+        return f.read()
+
+
 def run_impl(logs, ops, files):
-    """execute a history on the real atomman. -> list of ('state', st, tell) | ('table', t) | ('err', cls, msg);
-    `tell` = byte position a binary stream handed to the read is left at (None for other inputs)."""
+    """execute a history on the real atomman. -> list of ('state', st, tell, notes) | ('table', t, changed, aliased)
+    | ('err', cls, msg); `tell` = byte position a binary stream handed to the read is left at (None for other inputs);
+    `notes` = list of things that must not happen around a read (a new Log is not empty, the caller's stream closed
+    or rewritten)."""
     import atomman.lammps as lmp
     out = []
     log = None
     objs = {}
     nopen = len(files.open)
+
+    def fresh_log(notes):
+        lg = lmp.Log()
+        st0 = impl_state(lg)
+        if st0 != EMPTY_STATE:
+            notes.append(f'a new Log() is not empty: version {st0["version"]!r}, date {st0["date"]}, '
+                         f'{len(st0["sims"])} simulation records')
+        return lg
+
     try:
         for op in ops:
             try:
                 if op[0] in ('ctor', 'read'):
                     k, append, mode, reuse, pre = op_input(op)
+                    form = op_form(op)
                     text = logs[k]['text']
-                    if reuse and (k, mode) in objs:
+                    notes = []
+                    if reuse and (k, mode) in objs and mode != 'samepath':
                         src = objs[(k, mode)]
                     else:
                         src = _input(files, text, mode)
@@ -1332,35 +1439,74 @@ def run_impl(logs, ops, files):
                     if pre is not None and mode in STREAM_MODES:
                         src.seek(_byte_pos(text, pre))
                     if op[0] == 'ctor':
-                        log = lmp.Log(src)
+                        log = lmp.Log(src) if form == 'pos' else lmp.Log(log_info=src)
                     else:
                         if log is None:
-                            log = lmp.Log()
+                            log = fresh_log(notes)
                         if append is None:
-                            log.read(src)
+                            log.read(src) if form == 'pos' else log.read(log_info=src)
+                        elif form == 'pos':
+                            log.read(src, _append_arg(append))
                         else:
-                            log.read(src, append=append)
-                    out.append(('state', impl_state(log), src.tell() if mode in STREAM_MODES else None))
+                            log.read(src, append=_append_arg(append))
+                    tell = None
+                    if mode in STREAM_MODES:
+                        # the stream is the caller's: still open, its content untouched
+                        if src.closed:
+                            notes.append('the stream handed to the read was closed by it')
+                        else:
+                            tell = src.tell()
+                            if _stream_bytes(src, mode, getattr(src, 'name', None)) != text.encode('utf-8'):
+                                notes.append('the content of the stream handed to the read was changed by it')
+                    elif mode in ('path', 'pathobj', 'samepath'):
+                        with open(str(src), 'rb') as f:
+                            if f.read() != text.encode('utf-8'):
+                                notes.append('the file whose path was handed to the read was changed by it')
+                    out.append(('state', impl_state(log), tell, notes))
                 elif op[0] == 'flatten':
+                    notes = []
                     if log is None:
-                        log = lmp.Log()
+                        log = fresh_log(notes)
                     before = [impl_table(x.thermo) for x in log.simulations]
-                    try:
-                        sim = log.flatten(op[1], op[2], op[3])
-                        res = ('table', impl_table(sim.thermo))
-                    finally:
+                    form = op_form(op)
+                    style, fi, la = op[1], op[2], op[3]
+
+                    def changed_since():
                         # flatten is a query: the records of the log are what they were (also after a refusal)
                         after = [impl_table(x.thermo) for x in log.simulations]
-                    changed = None
-                    if len(after) != len(before):
-                        changed = f'{len(before)} records before, {len(after)} after'
-                    else:
+                        if len(after) != len(before):
+                            return f'{len(before)} records before, {len(after)} after'
                         for j, (b, a) in enumerate(zip(before, after)):
                             if b != a:
-                                changed = (f'record {j} had columns {b[0]} and {len(b[1])} rows before, '
-                                           f'columns {a[0]} and {len(a[1])} rows after')
-                                break
-                    out.append(res + (changed,))
+                                return (f'record {j} had columns {b[0]} and {len(b[1])} rows before, '
+                                        f'columns {a[0]} and {len(a[1])} rows after')
+                        return None
+
+                    try:
+                        if form == 'pos' and style is not None:
+                            sim = log.flatten(style, fi, la)
+                        else:
+                            kw = {} if style is None else {'style': style}
+                            if form != 'min' or fi is not None:
+                                kw['firstindex'] = fi
+                            if form != 'min' or la is not None:
+                                kw['lastindex'] = la
+                            sim = log.flatten(**kw)
+                    except Exception as e:  # noqa
+                        out.append(('err', exc_class(e), f'{type(e).__name__}: {str(e)[:200]}', changed_since()))
+                        continue
+                    res = ('table', impl_table(sim.thermo, record=False))
+                    changed = changed_since() or (notes[0] if notes else None)
+                    # flatten hands out a new table: whatever the caller does to it, the log keeps its records
+                    aliased = None
+                    if changed is None:
+                        _scribble(sim.thermo)
+                        after2 = [impl_table(x.thermo) for x in log.simulations]
+                        j = next((j for j, (x, y) in enumerate(zip(before, after2)) if x != y), None)
+                        if j is not None:
+                            aliased = (f'the table returned by flatten is not a new one: after the caller overwrote the '
+                                       f'returned table in place, record {j} of the log has columns {after2[j][0]}')
+                    out.append(res + (changed, aliased))
             except Exception as e:  # noqa
                 out.append(('err', exc_class(e), f'{type(e).__name__}: {str(e)[:200]}'))
                 if op[0] != 'flatten':      # a failed read leaves the object half-updated: stop the history
@@ -1390,7 +1536,7 @@ def model_requests(logs, ops):
             text = logs[k]['text']
             if op[0] == 'ctor':
                 req.append('new')
-            a = '1' if append in (None, True) else '0'
+            a = '1' if _appends(append) else '0'
             if mode in TEXT_STREAM_MODES:
                 where.append(None)
             elif mode in STREAM_MODES:
@@ -1412,7 +1558,7 @@ def model_requests(logs, ops):
                 where.append(len(req) - 1)
         else:
             f = lambda x: 'none' if x is None else str(x)  # noqa
-            req.append(f'flatten {enc(op[1])} {f(op[2])} {f(op[3])}')
+            req.append(f'flatten {enc(flatten_style(op))} {f(op[2])} {f(op[3])}')
             where.append(len(req) - 1)
     return req, where
 
@@ -1424,12 +1570,16 @@ def compare_history(logs, ops, impl_out, replies, where):
         if res[0] == 'err':
             if rep != res[1]:
                 return k, f'implementation raised {res[2]} but the model answers {rep[:120]}'
+            if len(res) > 3 and res[3]:
+                return k, 'flatten (refusing) changed the records of the log: ' + res[3]
             continue
         if rep == 'err:type' and res[0] == 'table':
             continue        # Step cells that are not integers (junk line in the block): comparison not modelled
         if rep.startswith('err:'):
             return k, f'model answers {rep} but the implementation returned a result'
         if res[0] == 'state':
+            if len(res) > 3 and res[3]:
+                return k, '; '.join(res[3])
             pos = None
             if ' @' in rep:
                 rep, at = rep.rsplit(' @', 1)
@@ -1446,6 +1596,8 @@ def compare_history(logs, ops, impl_out, replies, where):
         else:
             if len(res) > 2 and res[2]:
                 return k, 'flatten changed the records of the log: ' + res[2]
+            if len(res) > 3 and res[3]:
+                return k, res[3]
             mt = parse_table_reply(rep)
             if res[1][0] != mt[0]:
                 return k, f'flatten columns {res[1][0]} != model {mt[0]}'
@@ -1518,6 +1670,10 @@ def _malformed_histories(rng):
         '',                                                          # empty log
         '\n\n',
         B + '\nTemp Pe\n1 2\n3 4\nLoop time of 1\n' + B + '\nTemp Pe\n1 2\nLoop time of 1\n',   # no Step: flatten asserts
+        # a table followed directly by the next memory line, no `Loop time` line in between (a crashed session followed
+        # by a new one in the same file): the footers pair up with the wrong headers
+        B + '\nStep Temp\n0 1.5\n10 2.5\n' + B + '\nStep Temp\n10 1\n20 2\nLoop time of 1\n',
+        B + '\nStep Temp\n0 1.5\n10 2.5\nLAMMPS (7 Aug 2019)\n' + B + '\nStep Temp Press\n10 1 2\n20 2 3\nLoop time of 1\nx\n',
     ]
     out = []
     for t in texts:
@@ -1619,7 +1775,7 @@ def check_history_clauses(logs, ops, impl_out):
         if op[0] in ('ctor', 'read'):
             e = logs[op[1]]['expect']
             _, app, mode, reuse, pre = op_input(op)
-            append = op[0] != 'ctor' and (app is None or app is True)
+            append = op[0] != 'ctor' and _appends(app)
             if cur is None or not append:       # a new Log object / append=False
                 cur = {'version': None, 'date': None, 'runs': []}
             # whatever object carries the log (text, bytes, path, open binary stream — fresh, handed over before, or
@@ -1635,10 +1791,14 @@ def check_history_clauses(logs, ops, impl_out):
                     return None         # the documented refusal of streams opened in text mode; the history ends here
                 return 'read:raises', f'op {k} {op[0]}({how}): reading a well-formed log raised {res[2]}'
             st = res[1]
+            if len(res) > 3 and res[3]:
+                return 'read:side-effect', f'op {k} {op[0]}({how}): ' + '; '.join(res[3])
             if len(st['sims']) != len(cur['runs']):
                 return ('read:append' if (k > 0 and append) else 'read:runs',
-                        f'op {k} {op[0]}({how}): {len(st["sims"])} simulation records, expected {len(cur["runs"])} '
-                        f'(one per run, appended after the existing ones)')
+                        f'op {k} {op[0]}({how}, append={"not given" if app is None else app!r} given by '
+                        f'{"position" if op_form(op) == "pos" else "keyword"}): {len(st["sims"])} simulation records, '
+                        f'expected {len(cur["runs"])} (one per run, '
+                        f'{"appended after the existing ones" if append else "the existing ones dropped"})')
             for j, ((tab, _), run) in enumerate(zip(st['sims'], cur['runs'])):
                 if tab[0] != run['cols']:
                     return 'read:columns', f'op {k}: run {j}: columns {tab[0]} != printed {run["cols"]}'
@@ -1655,22 +1815,59 @@ def check_history_clauses(logs, ops, impl_out):
             want_date = None if cur['date'] is None else tuple(cur['date'])
             if st['date'] != want_date:
                 return 'read:date', f'op {k}: lammps_date {st["date"]}, expected {want_date}'
+            # the record of a run carries the timing breakdown printed after that run (and no other)
+            for j, ((_, perf), run) in enumerate(zip(st['sims'], cur['runs'])):
+                if 'perf' not in run:
+                    continue            # replay written before the breakdown was part of the specification
+                want = run['perf']
+                if (perf is None) != (want is None):
+                    return 'read:performance', (f'op {k}: run {j}: the record has '
+                                                f'{"a" if perf is not None else "no"} performance table, the log prints '
+                                                f'{"a" if want is not None else "no"} timing breakdown after that run')
+                if want is not None:
+                    if perf[0] != want[0]:
+                        return 'read:performance', f'op {k}: run {j}: performance columns {perf[0]} != printed {want[0]}'
+                    if not table_equal(perf, (want[0], want[1])):
+                        return 'read:performance', (f'op {k}: run {j}: performance table '
+                                                    f'{[[_show(c) for c in r] for r in perf[1]]} != printed {want[1]}')
         else:
             if cur is None:
                 continue
+            style = flatten_style(op)
+            call = (f'flatten({"" if op[1] is None else repr(op[1]) + ", "}{op[2]}, {op[3]}'
+                    f'{"; by keyword" if op_form(op) != "pos" else ""})')
             if res[0] == 'table' and len(res) > 2 and res[2]:
-                return 'flatten:changes-log', (f'op {k} flatten({op[1]!r}, {op[2]}, {op[3]}) changed the records of the '
+                return 'flatten:changes-log', (f'op {k} {call} changed the records of the '
                                                f'log it was asked about: {res[2]}')
+            if res[0] == 'err' and len(res) > 3 and res[3]:
+                return 'flatten:changes-log', (f'op {k} {call} raised {res[2]} and changed the records of the log it was '
+                                               f'asked about: {res[3]}')
+            if res[0] == 'table' and len(res) > 3 and res[3]:
+                return 'flatten:aliases-log', f'op {k} {call}: {res[3]}'
             runs = cur['runs'][slice(op[2], op[3])]
-            ok_in = (op[1] in ('first', 'last', 'all') and len(runs) >= 1
+            # the documented refusals: runs without a Step column cannot be merged (assertion), unknown style (ValueError)
+            refusal = None
+            if any('Step' not in r['cols'] and len(r['rows']) >= 1 for r in runs):
+                refusal = ('err:assert', 'a run without a Step column')
+            elif style not in ('first', 'last', 'all') and len(runs) >= 2:
+                refusal = ('err:value', f'the unsupported style {style!r}')
+            if refusal is not None:
+                if res[0] != 'err':
+                    return 'flatten:refusal', (f'op {k} {call} over {len(runs)} runs returned a table of {len(res[1][1])} '
+                                               f'rows instead of refusing {refusal[1]}')
+                if res[1] != refusal[0]:
+                    return 'flatten:refusal', (f'op {k} {call} over {len(runs)} runs: {refusal[1]} is refused by '
+                                               f'{res[2]}, documented: {"AssertionError" if refusal[0] == "err:assert" else "ValueError"}')
+                continue
+            ok_in = (style in ('first', 'last', 'all') and len(runs) >= 1
                      and all('Step' in r['cols'] and len(r['rows']) >= 1 for r in runs))
             if not ok_in:
-                continue       # outside the property's hypotheses (empty selection / no Step / empty block)
+                continue       # outside the property's hypotheses (empty selection / empty block)
             if res[0] == 'err':
-                return 'flatten:raises', f'op {k} flatten({op[1]!r}, {op[2]}, {op[3]}) raised {res[2]}'
-            bad = flatten_clauses(op[1], runs, res[1])
+                return 'flatten:raises', f'op {k} {call} raised {res[2]}'
+            bad = flatten_clauses(style, runs, res[1])
             if bad:
-                return 'flatten:' + op[1], f'op {k} flatten({op[1]!r}, {op[2]}, {op[3]}): {bad}'
+                return 'flatten:' + style, f'op {k} {call}: {bad}'
     return None
 
 
